@@ -23,9 +23,9 @@ EXTENDS AdfSem, AdfSyntax, ServerShapes, Integers, Json, IOUtils, TLC
 
 Rec == ndJsonDeserialize(IOEnv.TRACE)
 
-VARIABLES l, codes, lastpw, prevprobs, actors, race, quiet, asked
+VARIABLES l, codes, lastpw, prevprobs, actors, race, quiet, asked, granted
 
-vars == <<l, codes, lastpw, prevprobs, actors, race, quiet, asked>>
+vars == <<l, codes, lastpw, prevprobs, actors, race, quiet, asked, granted>>
 
 RangeOf(sq) == { sq[i] : i \in DOMAIN sq }
 Report(ok, id, prop, what) == ok \/ PrintT(<<"MISMATCH", l, id, prop, what, race>>)
@@ -155,6 +155,10 @@ CheckHttp(r) ==
   \* (an unnamed add gets a generated name: any accepted add of this person explains a running Parse)
   /\ \A i \in DOMAIN shown : \A t \in RangeOf(shown[i].running) :
        Report(<<r.p, shown[i].name, t>> \in asked \/ (t = "Parse" /\ \E a \in asked : a[1] = r.p /\ a[3] = "Parse" /\ a[2] = ""), r.id, "C16", <<"running-task-nobody-started-for-this-problem", t>>)
+  \* C16: every strategy can be had: a solve is refused as "already solved / running" only if this person was granted that very
+  \* solve for that problem before (and has not deleted the problem since)
+  /\ (r.op = "solve" /\ r.status = 409 /\ race = "none") =>
+       Report(<<r.p, r.args.name, r.args.strategy>> \in granted, r.id, "C16", <<"solve-refused-although-never-granted", r.args.strategy>>)
   \* C16: "the models eventually stored and returned": once nothing is pending, every solve this person was granted for this
   \* problem has left a result (or an error) - unless the problem was deleted or the account renamed / deleted meanwhile
   /\ (quiet /\ "final" \in DOMAIN r) =>
@@ -218,14 +222,14 @@ CheckDb(r) ==
 
 \* ------------------------------------------------------------------ the trace machine
 Init == /\ l = 1 /\ codes = [q \in 1..3 |-> {}] /\ lastpw = [x \in {} |-> ""] /\ prevprobs = <<>>
-        /\ actors = {} /\ race = "none" /\ quiet = TRUE /\ asked = {}
+        /\ actors = {} /\ race = "none" /\ quiet = TRUE /\ asked = {} /\ granted = {}
 
 Next ==
   /\ l <= Len(Rec) /\ l' = l + 1
   /\ LET r == Rec[l] IN
      CASE r.kind = "reset" ->
             /\ codes' = [q \in 1..3 |-> {}] /\ lastpw' = [x \in {} |-> ""] /\ prevprobs' = <<>> /\ actors' = {}
-            /\ race' = (IF "race" \in DOMAIN r THEN r.race ELSE "none") /\ quiet' = TRUE /\ asked' = {}
+            /\ race' = (IF "race" \in DOMAIN r THEN r.race ELSE "none") /\ quiet' = TRUE /\ asked' = {} /\ granted' = {}
        [] r.kind = "http" ->
             /\ CheckHttp(r) \in BOOLEAN
             /\ codes' = IF r.op = "add" /\ r.p # 0 THEN [codes EXCEPT ![r.p] = @ \cup {r.args.code}] ELSE codes
@@ -238,12 +242,17 @@ Next ==
                          ELSE IF r.op = "delete" THEN { a \in asked : ~(a[1] = r.p /\ a[2] = r.args.name) }
                          ELSE IF r.op \in {"update", "delete_account"} THEN { a \in asked : a[1] # r.p }
                          ELSE asked
+            \* grants survive a rename (the documents and their results move along), not the deletion of the problem / account
+            /\ granted' = IF r.status = 200 /\ r.op = "solve" THEN granted \cup {<<r.p, r.args.name, r.args.strategy>>}
+                           ELSE IF r.op = "delete" THEN { a \in granted : ~(a[1] = r.p /\ a[2] = r.args.name) }
+                           ELSE IF r.op = "delete_account" THEN { a \in granted : a[1] # r.p }
+                           ELSE granted
             /\ UNCHANGED <<prevprobs, race, quiet>>
        [] r.kind = "db" ->
             /\ CheckDb(r) \in BOOLEAN
             /\ prevprobs' = r.dump.probs /\ actors' = {} /\ quiet' = (r.pending_writes = 0)
-            /\ UNCHANGED <<codes, lastpw, race, asked>>
-       [] OTHER -> UNCHANGED <<codes, lastpw, prevprobs, actors, race, quiet, asked>>
+            /\ UNCHANGED <<codes, lastpw, race, asked, granted>>
+       [] OTHER -> UNCHANGED <<codes, lastpw, prevprobs, actors, race, quiet, asked, granted>>
 
 Spec == Init /\ [][Next]_vars
 Consumed == (TLCGet("stats").diameter - 1 = Len(Rec))
